@@ -3,6 +3,7 @@ import Mp.EvalS
 import Mp.Analysis
 import Mp.Cue
 import Mp.CueFunc
+import Mp.Tree
 /-! Line-protocol handlers of the model driver (core-only: links as an executable). -/
 open Lean
 namespace Mp
@@ -137,10 +138,23 @@ partial def decTy (j : Json) : CTy :=
   | "deplist" => .deplist (match j.getObjVal? "v" with | .ok (.arr a) => a.toList.filterMap (·.getStr?.toOption) | _ => [])
   | k => .prim k
 
+/-- a result tree as the harness writes it: `[kind, error flag, [children]]`, kind one of P I F C A L -/
+partial def decodeTree (j : Json) : Tree.VT :=
+  let kind := ((j.getArrVal? 0).toOption.bind (·.getStr?.toOption)).getD ""
+  let e := ((j.getArrVal? 1).toOption.bind (·.getNat?.toOption)).getD 0 != 0
+  let cs : List Tree.VT := match j.getArrVal? 2 with | .ok (.arr a) => a.toList.map decodeTree | _ => []
+  match kind with
+  | "P" => .path e cs | "I" => .ident e cs | "F" => .filt e cs | "C" => .call e cs | "A" => .param e cs | _ => .logic e cs
+
 def handleCue (line : String) : String :=
   match Json.parse line with
   | .error e => s!"BADJSON {e}"
   | .ok j =>
+    -- a result tree: what HasErrors answers, and whether some node carries an error text
+    if (j.getObjValAs? String "pos").toOption.getD "" == "tree" then
+      let t := match j.getObjVal? "tree" with | .ok v => decodeTree v | _ => Tree.VT.path false []
+      s!"HE={if Tree.hasErrors t then 1 else 0} ANY={if Tree.anyNode t then 1 else 0}"
+    else
     let root := match j.getObjVal? "s" with | .ok s => decTy s | _ => .prim "top"
     let p := match j.getObjVal? "p" with | .ok (.arr a) => a.toList.filterMap (·.getStr?.toOption) | _ => []
     let cp := (j.getObjValAs? String "cp").toOption.getD ""
